@@ -1849,7 +1849,7 @@ func TestZZVerifC17Trace(t *testing.T) {
 		// not special, nothing in it may be read without a matching pattern.
 		dataDir := filepath.Join(work, "tb", "d"+strconv.Itoa(ep))
 		_ = os.MkdirAll(dataDir, 0o755)
-		plantedDirs, plantedFiles := []string{filterDir}, []string{filterDir + "/x.txt", filterDir + "/77.txt", "x.txt"}
+		plantedDirs, plantedFiles := []string{filterDir, "userfilters"}, []string{filterDir + "/x.txt", filterDir + "/77.txt", "x.txt", "userfilters/u.txt"}
 		world.addPlanted(plantedDirs, plantedFiles)
 		world.dataDir = dataDir
 		if err = world.plant(dataDir); err != nil {
